@@ -9,12 +9,14 @@ Open Scope bool_scope.
 
 (* NewFilterFS(fs, &FilterOpt{FollowPaths: reqs}) with no other option set:
      targets := FollowLinks(fs, reqs)
-     if targets != nil { includePatterns = dedupePaths(append(nil, targets...)) }
-   [follow] = what FollowLinks returned (None = nil); dedupePaths answers nil when it meets ".".
-   Result None = patternmatcher.New refused the list. *)
+     if targets != nil { includePatterns = append(includePatterns, targets...) }
+   [follow] = what FollowLinks returned (None = nil).  Result None = patternmatcher.New refused
+   the list.  (Before the fix of finding dedupe-order-sensitive-includes the combined list was
+   passed through dedupePaths once more; for a FollowPaths-only filter that is the identity:
+   theorem follow_targets_dedupe_fixpoint.) *)
 Definition follow_includes (follow : option (list bytes)) : list bytes :=
   match follow with
-  | Some l => match dedupe_paths l with Some l' => l' | None => [] end
+  | Some l => l
   | None => []
   end.
 Definition follow_cfg (follow : option (list bytes)) : option cfg := mk_cfg (follow_includes follow) [].
@@ -31,3 +33,20 @@ Definition plain_inputs (view : list node) (reqs : list bytes) : bool :=
 (* the entries a request needs in the copy: every symlink traversed, and the entry reached *)
 Definition needed (o : cres) (x : list bytes) : Prop :=
   In x (traversed o) \/ (final o = Reached x /\ x <> []).
+
+(* ---- requests whose last component is a bare star ---- *)
+Definition s_star : bytes := [star].
+(* plain, and safe as the literal part of an L/star pattern (what C10 assumes of the library) *)
+Definition psafe_comp (c : bytes) : bool := plain_comp c && regex_safe c.
+(* every component plain and safe; the last one may instead be a bare star *)
+Fixpoint star_last_c (cs : list bytes) : bool :=
+  match cs with
+  | [] => true
+  | c :: r => match r with
+              | [] => psafe_comp c || bytes_eqb c s_star
+              | _ => psafe_comp c && star_last_c r
+              end
+  end.
+Definition star_inputs (view : list node) (reqs : list bytes) : bool :=
+  forallb (fun r => star_last_c (norm_clamp (comps r))) reqs &&
+  forallb (fun l => forallb psafe_comp (comps l)) (forest_links view).
